@@ -348,36 +348,15 @@ Record wf_query (idf : idf_table) (n : nat) (q : equery) : Prop := {
 }.
 
 (* ---- parse_query_terms: what is_term_centric = true means ---- *)
-Definition nstep (acc : nat) (f : efield) : nat := if Nat.eqb acc 0 then length (ef_terms f) else acc.
-Definition tstep (st : nat * bool) (f : efield) : nat * bool :=
-  let '(acc, tc) := st in
-  let k := length (ef_terms f) in
-  if Nat.eqb acc 0 then (k, tc) else if Nat.eqb k acc then (acc, tc) else (acc, false).
-
-Lemma tc_fold_nonzero : forall fields acc tc, acc <> O ->
-  fold_left nstep fields acc = acc /\
-  (snd (fold_left tstep fields (acc, tc)) = true -> tc = true /\ forall f, In f fields -> length (ef_terms f) = acc).
-Proof.
-  induction fields as [|f rest IH]; intros acc tc Hacc; cbn [fold_left].
-  - split; [reflexivity|]. cbn. intros ->. split; [reflexivity|]. intros f [].
-  - unfold nstep at 2. unfold tstep at 2. destruct (Nat.eqb_spec acc 0); [contradiction|].
-    destruct (Nat.eqb_spec (length (ef_terms f)) acc) as [E|NE].
-    + destruct (IH acc tc Hacc) as [A B]. split; [exact A|]. intros H. destruct (B H) as [B1 B2].
-      split; [exact B1|]. intros f' [<-|Hf']; auto.
-    + destruct (IH acc false Hacc) as [A B]. split; [exact A|]. intros H. destruct (B H) as [B1 _]. discriminate.
-Qed.
-
 Lemma term_centric_counts fields :
   (forall f, In f fields -> (1 <= length (ef_terms f))%nat) ->
   is_term_centric fields = true ->
   forall f, In f fields -> length (ef_terms f) = num_search_terms fields.
 Proof.
-  unfold is_term_centric, num_search_terms. fold nstep. fold tstep.
-  destruct fields as [|f0 rest]; intros Hge H f Hf; [contradiction|].
-  cbn [fold_left] in *. unfold nstep at 2. unfold tstep at 2 in H. cbn [Nat.eqb] in *.
-  assert (K : length (ef_terms f0) <> O) by (specialize (Hge f0 (or_introl eq_refl)); lia).
-  destruct (tc_fold_nonzero rest _ true K) as [A B]. rewrite A. destruct (B H) as [_ B2].
-  destruct Hf as [<-|Hf]; auto.
+  unfold is_term_centric, num_search_terms.
+  destruct fields as [|f0 rest]; intros _ H f Hf; [contradiction|].
+  destruct Hf as [<-|Hf]; [reflexivity|].
+  rewrite forallb_forall in H. apply Nat.eqb_eq. apply H. exact Hf.
 Qed.
 
 Lemma num_search_terms_nil : num_search_terms [] = O.
